@@ -56,9 +56,34 @@ def mode_of(alg, cfg):
   return 'weight_only'
 
 
+def spec_resolve(recipe, op_key, scope):
+  """Documented resolution, computed from the exported rule list only (scopes
+  in first-insertion order, rules in order, last applicable rule wins) with
+  re.search and the library's SUPPORT CHECK — not with the manager's resolver."""
+  import re
+  from ai_edge_quantizer import algorithm_manager
+  from ai_edge_quantizer import qtyping
+  res = ('no_quantize', None)
+  for r in recipe:
+    if not re.search(r['regex'], scope):
+      continue
+    if r['operation'] != '*' and r['operation'] != op_key:
+      continue
+    alg = r['algorithm_key']
+    cfg = None
+    if alg != 'no_quantize':
+      try:
+        cfg = qtyping.OpQuantizationConfig.from_dict(r['op_config'])
+        algorithm_manager.check_op_quantization_config(alg, op_key, cfg)
+      except (ValueError, KeyError):
+        continue
+    res = (alg, cfg)
+  return res
+
+
 def resolve_ops(qt, m):
   """per subgraph: list of (key, mode, cfg) for the real ops + INPUT/OUTPUT."""
-  rm = qt._recipe_manager  # pylint: disable=protected-access
+  recipe = json.loads(json.dumps(qt.get_quantization_recipe()))
   out = []
   for g in m.subgraphs:
     ops = []
@@ -69,11 +94,11 @@ def resolve_ops(qt, m):
         ops.append((None, 'none', None))
         continue
       scope = ''.join(og.tname(g.tensors[x]) + ';' for x in o.outputs if x != -1)
-      alg, cfg = rm.get_quantization_configs(key, scope)
+      alg, cfg = spec_resolve(recipe, key.value, scope)
       ops.append((key.value, mode_of(alg, cfg), cfg))
     isc = ''.join(og.tname(g.tensors[x]) + ';' for x in g.inputs)
-    a1, c1 = rm.get_quantization_configs('INPUT', isc)
-    a2, c2 = rm.get_quantization_configs('OUTPUT', '')
+    a1, c1 = spec_resolve(recipe, 'INPUT', isc)
+    a2, c2 = spec_resolve(recipe, 'OUTPUT', '')
     out.append((ops, ('INPUT', mode_of(a1, c1), c1), ('OUTPUT', mode_of(a2, c2), c2)))
   return out
 
@@ -440,7 +465,7 @@ def main():
   seed = int(os.environ.get('VERIF_SEED', '0'))
   rng = random.Random(seed * 32452843 + 11)
   t0 = time.time()
-  n_models = 900 if tier == 'thorough' else 110
+  n_models = 3000 if tier == 'thorough' else 250
   viol = []
   dist = collections.Counter()
   nontrivial = set()
@@ -466,7 +491,7 @@ def main():
 
   import itertools
   for mb, qt, stats, desc, info in itertools.chain(
-      cg.gen_cases(rng, n_models), directed_shared(400 if tier == 'thorough' else 60)):
+      cg.gen_cases(rng, n_models), directed_shared(1500 if tier == 'thorough' else 120)):
     dist['cases'] += 1
     if info.get('directed'):
       dist['directed:' + info['directed']] += 1
